@@ -1,5 +1,6 @@
 import ElvisVerif.Props.C19
 import ElvisVerif.Lemmas.NdlWhole2
+import ElvisVerif.Lemmas.NdlDup2
 /-!
 # C19, second part — whole-file rejection, every written form, the exact normal form
 
@@ -72,6 +73,17 @@ theorem c19_rejects_whole_file_missing_section (text : Text) (h : InFile lacksOf
     in the file ⇒ `Err` -/
 theorem c19_rejects_whole_file_dup_id (text : Text) (h : DupFile [] (normalise text) 1) :
     ∃ k n, parse text = .error (.err k n) := build_rejects_dup h
+
+/-- (d'), different blocks, with NOTHING asked of the text after the repeated id (`DupFileAny`: blocks
+    that read as blocks, then a `[Networks]` block whose entries read as entries up to one whose id
+    an earlier block used): never an accepted `Sim` — `networks_parser`'s loop only adds to its map,
+    so the repeated id reaches `core_parser`'s merge if the block is read at all -/
+theorem c19_rejects_whole_file_dup_id_any_tail (text : Text) (h : DupFileAny [] (normalise text) 1) (sim : Sim) :
+    parse text ≠ .ok sim := build_not_ok_dup h sim
+
+/-- … and a reported `Err` for every text with fewer than 2^31 − 1 lines (by `c14_ndl_total_lines`) -/
+theorem c19_rejects_whole_file_dup_id_any_tail_err (text : Text) (h : DupFileAny [] (normalise text) 1)
+    (hl : nlCount text < i32Max) : ∃ k n, parse text = .error (.err k n) := parse_dup_any_tail text h hl
 
 /-- never an accepted `Sim` -/
 theorem c19_rejects_whole_file_not_ok (off : Off) (hf : Fatal off) (text : Text)
@@ -157,6 +169,11 @@ theorem c19_dup_id_after_any_doc (doc : Doc) (hd : doc.Ok) (rest : Text) (hr : c
     (h : DupFile (doc.sim.networks.map (·.1)) rest (1 + lc doc.lines)) :
     DupFile [] (renderDoc .tabs doc ++ rest) 1 :=
   dupFile_after_doc (docAt_render doc rest 1 hd.2.1 hd.1 hr hn hd.2.2.2) [] (by simpa [doc_ids] using h)
+
+theorem c19_dup_id_any_tail_after_any_doc (doc : Doc) (hd : doc.Ok) (rest : Text) (hr : countTabs rest < 1)
+    (hn : NoNl rest) (h : DupFileAny (doc.sim.networks.map (·.1)) rest (1 + lc doc.lines)) :
+    DupFileAny [] (renderDoc .tabs doc ++ rest) 1 :=
+  dupFileAny_after_doc (docAt_render doc rest 1 hd.2.1 hd.1 hr hn hd.2.2.2) [] (by simpa [doc_ids] using h)
 
 /-! ### non-vacuity: concrete files with the offence in the middle -/
 
@@ -251,6 +268,27 @@ example : DupFile [] badDup 1 := by
       (by decide)) ⟨['1'], by decide, by decide⟩
 
 example : parse badDup = .error (.err .dupId 0) := by decide +kernel
+
+/-- … the same with a broken line right after the repeated id: another error, still no `Sim` -/
+def junk : Text := ['\t','[','B','o','g','u','s',']','\n']
+def badDupJunk : Text :=
+  renderDoc .tabs good ++ (netsHdr ++ (rlText .tabs (net '2').lines ++ (rlText .tabs (net '1').lines ++ junk)))
+
+example : DupFileAny [] badDupJunk 1 := by
+  refine c19_dup_id_any_tail_after_any_doc good good_ok _ (by decide) (by intro r h; cases h) ?_
+  have hl : 1 + lc good.lines = 12 := by decide
+  rw [hl]
+  refine DupFileAny.block (ps := []) (l' := 13)
+    (tail := rlText .tabs (net '2').lines ++ (rlText .tabs (net '1').lines ++ junk)) (by decide +kernel) ?_
+  have h2 := netAt_render (net '2') (DNet.shape_of_B _ (by decide))
+    (fun x hx => RLine.ok_of_B x (List.all_eq_true.1 (by decide) x hx))
+    (rlText .tabs (net '1').lines ++ junk) 13 (by decide) (by intro r h; cases h) (by decide)
+  have h1 := netAt_render (net '1') (DNet.shape_of_B _ (by decide))
+    (fun x hx => RLine.ok_of_B x (List.all_eq_true.1 (by decide) x hx))
+    junk 15 (by decide) (by intro r h; cases h) (by decide)
+  exact DupAcross.later h2 (DupAcross.here h1 (by decide))
+
+example : parse badDupJunk = .error (.err .dectype 17) := by decide +kernel
 
 end Ex
 
